@@ -22,12 +22,26 @@ fn main() {
     if name == "noop" {
         return;
     }
-    let report = match name {
+    let report = match vnet::catch(|| match name {
         "c20" => c20::run(&cfg),
         "c19" => c19::run(&cfg),
         _ => {
             eprintln!("unknown monitor {name}");
             std::process::exit(2);
+        }
+    }) {
+        Ok(r) => r,
+        Err(msg) => {
+            let prop = name.to_uppercase();
+            let mut r = vnet::Report::new(&prop, name);
+            if msg.contains("[at /repo/") {
+                r.evaluations = 1;
+                r.distinct.insert(1);
+                r.violation(&format!("{prop}/panic-in-zlink-escaped-the-monitor"), msg, serde_json::json!({"monitor": name}));
+            } else {
+                r.inconclusive.push(format!("the monitor itself panicked: {msg}"));
+            }
+            r
         }
     };
     let js = serde_json::to_string(&report.to_json()).unwrap();
